@@ -27,6 +27,8 @@ type PCase struct {
 	// Files are written next to the main schema file (path relative to the case directory -> content):
 	// sibling schemas reached through file $refs, in any directory layout.
 	Files map[string][]byte
+	// Symlinks are created after Files (path relative to the case directory -> link target as written).
+	Symlinks map[string]string
 	// MainBytes overrides the serialisation of Schema as the main file's content (YAML spellings, key order).
 	MainBytes []byte
 }
@@ -115,6 +117,11 @@ func RunPipeline(cases []*PCase) ([]*PResult, *Batch, error) {
 			fn := filepath.Join(dir, name)
 			_ = os.MkdirAll(filepath.Dir(fn), 0o755)
 			_ = os.WriteFile(fn, data, 0o644)
+		}
+		for name, target := range c.Symlinks {
+			fn := filepath.Join(dir, name)
+			_ = os.MkdirAll(filepath.Dir(fn), 0o755)
+			_ = os.Symlink(target, fn)
 		}
 		mainBytes := r.SchemaJSON
 		if c.MainBytes != nil {
